@@ -63,3 +63,13 @@ def offset_sensitive_days(hist: Dict[str, Any]) -> List[date]:
         if ts.date() != utc_day:
             days.update((ts.date(), utc_day))
     return sorted(days)
+
+
+def inverted_pair_days(hist: Dict[str, Any]) -> List[date]:
+    """Own dates of consecutive (in instant order) rows whose own-date order is the reverse of their instant order."""
+    ordered = sorted((parse_ts(r["ts"]) for r in hist["rows"]), key=lambda t: t.astimezone(timezone.utc))
+    days = set()
+    for a, b in zip(ordered, ordered[1:]):
+        if a.date() > b.date():
+            days.update((a.date(), b.date()))
+    return sorted(days)
